@@ -248,6 +248,8 @@ pub fn history(prop: &str, i: u64, rng: &mut Rng, out: &mut Outcome, dir: &std::
             }
         }
     }
+    // clients that have processed their own removal and were not invited again
+    let removed_for_good: Vec<usize> = ex_members.iter().copied().filter(|c| w.mls_active(*c, g) == Some(false) && w.clients[*c].group_state(&gid) == Some(group_types::GroupState::Inactive)).collect();
     // ---- feed every client everything, in three orders, twice ----------------------------------
     let n_events = w.log.len();
     let all_clients: Vec<usize> = (0..w.clients.len()).collect();
@@ -271,7 +273,29 @@ pub fn history(prop: &str, i: u64, rng: &mut Rng, out: &mut Outcome, dir: &std::
                     let _ = with_mdk!(w.clients[*c].mdk, x => x.process_welcome(&wid, rumor));
                     out.count("welcomes_fed_to_observers");
                 }
+                // the ordinary application loop: whatever is shown as a pending invitation is accepted
+                let pending = with_mdk!(w.clients[*c].mdk, x => x.get_pending_welcomes(None)).unwrap_or_default();
+                for wl in pending {
+                    out.count("pending_invitations_accepted_during_replay");
+                    let _ = with_mdk!(w.clients[*c].mdk, x => x.accept_welcome(&wl));
+                }
             }
+        }
+    }
+    // ---- nothing that was replayed gives a removed client its group back -----------------------------
+    for c in &removed_for_good {
+        out.count("removed_clients_judged_after_replay");
+        let st = w.clients[*c].group_state(&gid);
+        let ts = w.base_ts;
+        let can_send = w.act_message(*c, g, ts).is_some();
+        if st != Some(group_types::GroupState::Inactive) || can_send {
+            out.violation(
+                format!("{prop}|removed-member-revived-by-replay|state={st:?}|can-send={can_send}"),
+                format!("c{c} had processed its own removal (group Inactive); after every event and every invitation was replayed to it (and the invitations it was shown as pending were accepted) its group state is {st:?} and create_message succeeds: {can_send}"),
+                json!({"scenario": i, "steps": labels, "trace": trace_tail(&w, 40)}),
+            );
+            w.cleanup();
+            return;
         }
     }
     // ---- canary scan -------------------------------------------------------------------------------
@@ -327,13 +351,14 @@ pub fn run(ctx: &Ctx) -> i32 {
     let floors = vec![
         Floor { what: "events fed to observers", have: out.get("events_fed_to_observers"), need: 50_000 },
         Floor { what: "histories with an ex-member observer", have: out.get("histories_with_ex_member_observer"), need: 80 },
+        Floor { what: "removed clients judged again after the replay", have: out.get("removed_clients_judged_after_replay"), need: 80 },
         Floor { what: "plaintexts checked against the membership timeline", have: out.get("plaintexts_checked"), need: 5000 },
         Floor { what: "removals (inactive / cannot-send probes)", have: out.get("removals"), need: 60 },
     ];
     finish(
         ctx,
         "exploration",
-        "linear group histories (3-5 users, <= 22 steps) of messages with unique bodies, adds, removals, leaves committed by an admin, self-updates, nostr-id rotations and re-invitations of ex-members, plus a second group sharing two users; the member set of every message's epoch is recorded at send time. Afterwards EVERY client (never-member, member of the other group only, ex-members keeping their storage, late joiners, members) is fed every wrapper event and every welcome rumor ever published in log order, reversed and shuffled, each twice. Oracle: no client stores or is returned (ApplicationMessage result) a body whose epoch's member set does not contain its user; a client that processed its removal is Inactive and cannot create a message. distinct = distinct step sequences",
+        "linear group histories (3-5 users, <= 22 steps) of messages with unique bodies, adds, removals, leaves committed by an admin, self-updates, nostr-id rotations and re-invitations of ex-members, plus a second group sharing two users; the member set of every message's epoch is recorded at send time. Afterwards EVERY client (never-member, member of the other group only, ex-members keeping their storage, late joiners, members) is fed every wrapper event and every welcome rumor ever published in log order, reversed and shuffled, each twice. Oracle: no client stores or is returned (ApplicationMessage result) a body whose epoch's member set does not contain its user; a client that processed its removal is Inactive and cannot create a message - judged when the removal is processed and again after the whole replay, during which every invitation the client is shown as pending is accepted (the ordinary application loop). distinct = distinct step sequences",
         out,
         floors,
         vec!["cryptographic strength is not observable; what is checked is that no driven path hands over plaintext".into()],
